@@ -1562,10 +1562,31 @@ def vc_goal_refused(fns, variants, work):
             st.ghost = st.ghost | {"driver"}
         return None
 
-    eng = Engine(fns, fn, variants, hooks={"on_call": on_call, "after_call": after_call})
-    eng.seeds = seeds_for(fn, False, (mirvc.INDEX_PAT,))
+    # every Ok return with a NAMED goal (before the driver ran) has looked the goal up and found it at or behind first_patch:
+    # no shortcut ("nothing to do") may answer a named goal without validating it
+    # the goal is a local built from the command line (PushGoal::All / Count / UpTo); the one every variant is assigned to
+    goal_locals = [k for k, t in fn.types.items() if re.fullmatch(r"_\d+", k) and t.strip().endswith("PushGoal")]
+    goal_param = [g for g in goal_locals if sum(1 for stmts in fn.blocks.values() for s_ in stmts if re.match(r"%s = " % g, s_)) >= 2] or goal_locals
+    UPTO = variants.get("UpTo")
+    rets = [0]
+
+    def on_stmt(eng, st, bb, s):
+        if re.match(r"_0 = Result::<bool, .*>::Ok\(", s) and "driver" not in st.ghost and goal_param and UPTO is not None:
+            rets[0] += 1
+            gd = st.store.get(goal_param[0] + "#disc")
+            if gd is None:
+                gd = eng.read_path(st, goal_param[0] + "#disc", "isize")
+            if st.store.get("ghost:pos") is None:
+                ok, model = eng.feasible(st, [gd == UPTO])
+                eng.record_query("%s early ok" % bb, list(st.pc) + [gd == UPTO])
+                if ok:
+                    found.append({"bb": bb, "stmt": s[:120], "what": "cmd_push answers Ok to a named goal without looking it up (an unknown or already applied goal is not refused)",
+                                  "model": model_values(model, ("c_", "in_")), "trace": list(st.trace[-20:])})
+
+    eng = Engine(fns, fn, variants, hooks={"on_call": on_call, "after_call": after_call, "on_stmt": on_stmt})
+    eng.seeds = seeds_for(fn, False, (mirvc.INDEX_PAT,)) | set(goal_param)
     eng.run()
-    return summarize(eng, found, {"slice_sites_reached_with_named_goal": reached[0]}, work, "c17g", witness_ok=reached[0] > 0,
+    return summarize(eng, found, {"slice_sites_reached_with_named_goal": reached[0], "early_ok_returns_seen": rets[0]}, work, "c17g", witness_ok=reached[0] > 0,
                      witness_note="slicing not reached on the named-goal path")
 
 
